@@ -23,12 +23,12 @@ RULE = ("cases = (left frame, right frame, key spec, join kind) enumerated exhau
 ASSUMPTIONS = [
     "key values outside the alphabets and frames longer than the row bound are not explored",
     "key columns of different type on the two sides: equal instants held in different datetime64 units are not explored (NumPy 2.0 hashes datetime64 scalars per unit)",
-    "key columns have the same kind on both sides",
+    "key columns have the same kind on both sides, except for six cross-type pairs (int64/float64 both ways, date/datetime both ways, bool/int64, int64/uint8)",
     "which matched pair full_join forms beyond 'every left and right row at least once, never unequal keys' is not pinned (DESIGN 3.1)",
 ]
 BOUND = {
-    "quick": "one key: rows 0..3 a side over {NA,k1,k2} (40x40 pairs) for 12 key kinds x {same-name, renamed} x 5 joins; two keys: rows 0..2 a side over {NA,lo,hi}^2 (91x91 pairs) for 4 kind pairs x 5 joins",
-    "thorough": "one key: rows 0..3 a side over {NA,k1,k2,k3} (85x85 pairs) and rows 0..4 over {NA,k1,k2} (121x121) for 12 key kinds x {same-name, renamed} x 5 joins; two keys: rows 0..2 a side for 8 kind pairs",
+    "quick": "one key: rows 0..3 a side over {NA,k1,k2} (40x40 pairs) for 15 key kinds (incl. marker-like text, dates outside the nanosecond range, the ends of int64) x {same-name, renamed} x 5 joins; 6 pairs of key columns of different type on the two sides, rows 0..3 a side; two keys: rows 0..2 a side over {NA,lo,hi}^2 (91x91 pairs) for 4 kind pairs x 5 joins",
+    "thorough": "one key: rows 0..3 a side over {NA,k1,k2,k3} (85x85 pairs) and rows 0..4 over {NA,k1,k2} (121x121) for 15 key kinds x {same-name, renamed} x 5 joins; 6 cross-type key pairs, rows 0..3 a side; two keys: rows 0..2 a side for 8 kind pairs",
 }
 TIME_CAP = {"quick": 480, "thorough": 3000}
 
